@@ -25,6 +25,9 @@ NASTY = [
     '// control \x01\x07\x1b\x7f tab\t\n',
     '// r#"raw"# \'single\' `backtick` ${x} {{}} %s\n',
     '/* block\n   comment */\n',
+    # long, space- and tab-indented, several lines: a literal far wider than a formatter's line limit
+    'fn helper(x: f32) -> f32 {\n    var s = 0.0;\n    for (var i = 0; i < 4; i++) {\n        s += x;   // trailing   spaces   \n\t\ts = s * 2.0;\n    }\n    return s;\n}\n'
+    + '    // indented comment ' + 'z' * 120 + '\n',
 ]
 
 
